@@ -21,25 +21,91 @@ func ruleSlotIndexPositive(c *Ctx) {
 	}
 	n := 0
 	var assumptions []string
+	// a returned value: the result expression of a return, or — for the single-exit form
+	// `var index …; switch/if { index = e1 … index = e2 }; return index` — every expression
+	// assigned to the returned local (plain assignments only)
+	type retVal struct {
+		at ast.Node
+		e  ast.Expr
+	}
+	var vals []retVal
 	s.walk(func(m ast.Node) bool {
 		r, ok := m.(*ast.ReturnStmt)
 		if !ok || len(r.Results) != 1 {
 			return true
 		}
+		o := rawObj(s.Info, r.Results[0])
+		_, isVar := o.(*types.Var)
+		var defs []retVal
+		plain := isVar && o.Parent() != nil && o.Parent() != s.Pkg.Types.Scope()
+		if plain {
+			s.walk(func(k ast.Node) bool {
+				switch x := k.(type) {
+				case *ast.AssignStmt:
+					for i, l := range x.Lhs {
+						if rawObj(s.Info, l) == o {
+							if (x.Tok == token.ASSIGN || x.Tok == token.DEFINE) && len(x.Rhs) == len(x.Lhs) {
+								defs = append(defs, retVal{x, x.Rhs[i]})
+							} else {
+								plain = false
+							}
+						}
+					}
+				case *ast.IncDecStmt:
+					if rawObj(s.Info, x.X) == o {
+						plain = false
+					}
+				case *ast.ValueSpec:
+					for i, id := range x.Names {
+						if s.Info.ObjectOf(id) == o && len(x.Values) == len(x.Names) {
+							defs = append(defs, retVal{x, x.Values[i]})
+						}
+					}
+				}
+				return true
+			})
+		}
+		if plain && len(defs) >= 2 {
+			vals = append(vals, defs...)
+		} else {
+			vals = append(vals, retVal{r, r.Results[0]})
+		}
+		return true
+	})
+	branchDesc := func(at ast.Node) string {
+		d := s.guardDesc(at)
+		if !strings.HasPrefix(d, "case[") {
+			return d
+		}
+		// `switch T { case V:` is the same branch as `if T == V`
+		par := c.P.Parents(c.P.FileOf(s.Pkg, at.Pos()))
+		for m := par[at]; m != nil; m = par[m] {
+			if cc, ok := m.(*ast.CaseClause); ok {
+				if blk, ok := par[cc].(*ast.BlockStmt); ok {
+					if sw, ok := par[blk].(*ast.SwitchStmt); ok && sw.Tag != nil && len(cc.List) == 1 {
+						return "if[" + canonExpr(s.Info, sw.Tag) + "==" + canonExpr(s.Info, cc.List[0]) + "]"
+					}
+				}
+				break
+			}
+		}
+		return d
+	}
+	for _, rv := range vals {
+		r := rv.at
 		n++
-		v := s.evalInterval(r.Results[0], 0, &assumptions)
-		construct := "slot-index-min:" + s.guardDesc(r)
+		v := s.evalInterval(rv.e, 0, &assumptions)
+		construct := "slot-index-min:" + branchDesc(r)
 		switch {
 		case !v.ok:
-			c.Undecided(rule, s.Name, construct, "cannot bound the returned index (expression form not covered by the interval summaries): "+exprString(r.Results[0]))
+			c.Undecided(rule, s.Name, construct, "cannot bound the returned index (expression form not covered by the interval summaries): "+exprString(rv.e))
 		case v.lo >= 1:
 			c.Hold(rule, s.Name, construct, c.P.Pos(r.Pos()), fmt.Sprintf("returned index ∈ [%g, %g] ≥ 1", v.lo, v.hi))
 		default:
 			c.Violate(rule, s.Name, construct, c.P.Pos(r.Pos()),
 				fmt.Sprintf("returned slot index ∈ [%g, %g] can be 0, the empty-slot marker: readers treat the row as a hole and IndexToOffset(0) lies inside the file header", v.lo, v.hi), nil)
 		}
-		return true
-	})
+	}
 
 	c.Floor(rule, s.Name, "return paths", n, 2)
 	for _, a := range uniq(assumptions) {
